@@ -205,7 +205,7 @@ pub fn content_from_json(v: &serde_json::Value) -> Content {
 pub fn big_cases() -> Vec<Content> {
     let mut v = Vec::new();
     for e in [End::Little, End::Big] {
-        for n in [300usize, 20_000] {
+        for n in vcore::util::ladder(16_385).into_iter().chain([20_000]) {
             let mut c = Content::new(e);
             c.data = (0..4 * n).map(|i| (i as u8).wrapping_mul(29).wrapping_add(5)).collect();
             for i in 0..n {
